@@ -18,7 +18,8 @@ RULE = ("fixed names: unit / tuple / named variants x {identifier, serialize_all
 ASSUMPTIONS = ["rendering by format_args! itself is not modelled: that half is a Rust-vs-Rust differential against format!",
                "core::fmt::Formatter::pad is modelled by fmt_pad (Model/Display.v)"]
 
-NAMES = ["x", "Name", "héllo wörld", "日本語テキスト", "a-long-ascii-name-of-27-chars", "", "tab\tx", "é"]
+NAMES = ["x", "Name", "héllo wörld", "日本語テキスト", "a-long-ascii-name-of-27-chars", "", "tab\tx", "é",
+         "{{escaped}}", "a}}b{{c", "{{}}"]   # only ESCAPED braces: no placeholder, the name is fixed and printed verbatim
 
 
 def fixed_items():
